@@ -102,7 +102,7 @@ var exclude = []string{"fs/layer.(*layer).Verify", "fs/layer.(*layer).Info"}
 
 func top(r *vf.Run) {
 	nSeq := r.N(160, 800)
-	nConc := r.N(40, 110)
+	nConc := r.N(32, 110)
 	nFuse := r.N(16, 64)
 	if only := os.Getenv("C16_ONLY"); only != "" { // debugging aid: "stage:lo:hi", e.g. seq:8:9 (with C16_REPEAT=n)
 		f := strings.Split(only, ":")
@@ -120,7 +120,7 @@ func top(r *vf.Run) {
 		r.Logf("stage %s done in %.1fs", stage, walls[stage])
 	}
 	timed("seq", func() { runBatches(r, "seq", nSeq, r.N(160, 200), false) })
-	timed("conc", func() { runBatches(r, "conc", nConc, r.N(40, 55), true) })
+	timed("conc", func() { runBatches(r, "conc", nConc, r.N(32, 55), true) })
 	defer func() { r.Set("stage_wall_s", walls) }()
 	if fuseProbe(r) {
 		stop := make(chan struct{})
